@@ -356,6 +356,8 @@ Definition url_string_head (u : url) : string :=
              ++ (if nonempty (u_host u) then escape MHost (u_host u) else "")
       else s0 in
     let path := escaped_path u in
+    (* the '/' insertion: unreachable for a URL url.Parse returned (with a host the path is "" or starts with '/'), kept
+       because String() has it *)
     let s2 := if nonempty path && negb (String.prefix "/" path) && nonempty (u_host u) then s1 ++ "/" else s1 in
     let s3 := if negb (nonempty s2) && has_byte 58 (fst (break_slash path)) then "./" else s2 in
     s3 ++ path.
